@@ -530,16 +530,19 @@ def run_impl(case):
     import signal
 
     def _alarm(signum, frame):
-        raise TimeoutError("construction did not finish within 20 s")
+        raise TimeoutError("construction used more than 30 s of CPU time")
+
+    import mesa.discrete_space  # noqa: F401  (imports are not part of the construction being timed)
 
     try:
-        old_handler = signal.signal(signal.SIGALRM, _alarm)
-        signal.setitimer(signal.ITIMER_REAL, 20)
+        # CPU time of this process, not wall-clock: a loaded machine must not produce a false alarm
+        old_handler = signal.signal(signal.SIGPROF, _alarm)
+        signal.setitimer(signal.ITIMER_PROF, 30)
         try:
             space = _make_space(sp)
         finally:
-            signal.setitimer(signal.ITIMER_REAL, 0)
-            signal.signal(signal.SIGALRM, old_handler)
+            signal.setitimer(signal.ITIMER_PROF, 0)
+            signal.signal(signal.SIGPROF, old_handler)
     except Exception as e:  # noqa: BLE001  the space cannot even be built: every operation fails
         n = len(case["ops"])
         return {"obs": [[-1, 99]] * n, "ops_for_model": [list(o) for o in case["ops"]], "model": False,
